@@ -53,5 +53,11 @@ class Ctx:
         return False
 with Ctx() as fh:
     r8 = True
+def make_cause(v):
+    return ValueError(v)
+try:
+    raise KeyError(r1) from make_cause(r2)
+except KeyError as ke:
+    r9 = ke.__cause__.args
 del r5["s"]
 assert r7 == 1, "seven"
